@@ -209,7 +209,7 @@ def c19(tier):
 def c18(tier):
     t0 = time.time()
     cfgs = vec.GROWTH_QUICK + (vec.GROWTH_THOROUGH if tier == "thorough" else [])
-    cov, viols, inc = sets.run_engine("C18", tier, cfgs, 26, 26, extra_args=["--deep"] if tier == "thorough" else [], crash_owners=("C18",))
+    cov, viols, inc = sets.run_engine("C18", tier, cfgs, 27, 27, extra_args=["--deep"] if tier == "thorough" else [], crash_owners=("C18",))
     # capacities of the order of the size_type maximum (billions of one-byte elements in a lazily committed mapping)
     hcfgs = sets.GROWTH_HUGE + (sets.GROWTH_HUGE_THOROUGH if tier == "thorough" else [])
     c2, v2, i2 = sets.run_engine("C18", tier, hcfgs, 52, 52, crash_owners=("C18",), min_chunk=3)
